@@ -517,6 +517,6 @@ def run(tier, seed):
 MANIFEST = {
     "engine": "E",
     "technique": "exhaustive enumeration of insertion orders x certificate assignments x preferred subsets x connected subsets x storage indexes on the real StorageFarmBroker with real server objects",
-    "text": "Five real server objects (four NativeStorageServer, one HTTPNativeStorageServer, seeds from all three branches of _parse_announcement, real grid-manager verifiers over certificates carried in the announcements) are added to a fresh StorageFarmBroker in 4 (thorough: all 120) insertion orders; for every certificate assignment, preferred subset, connected subset and 4 storage indexes the answer of get_servers_for_psi (read, upload before/after a certificate expires, upload with no key configured) is compared with connected-and-certified servers sorted by (not preferred, SHA-1(si+seed)) recomputed independently. peers.preferred is also fed through tahoe.cfg and StorageClientConfig.from_node_config.",
+    "text": "Five real server objects (four NativeStorageServer, one HTTPNativeStorageServer, seeds from all three branches of _parse_announcement, real grid-manager verifiers over certificates carried in the announcements) are added to a fresh StorageFarmBroker in 4 (thorough: all 120) insertion orders; for every certificate assignment, preferred subset, connected subset and 4 storage indexes the answer of get_servers_for_psi (read, upload before/after a certificate expires, upload with no key configured) is compared with connected-and-certified servers sorted by (not preferred, SHA-1(si+seed)) recomputed independently. peers.preferred is also fed through tahoe.cfg and StorageClientConfig.from_node_config. The clock seam is datetime.now inside allmydata.grid_manager (current_datetime_with_zone is code under test); one insertion order is re-evaluated under two other TZ values; the grid half has a second history (certificate lost after creation, another server gone, overwrite).",
     "note": "The grid half (no allocate_buckets / write ever reaches an unpermitted server) is checked on the virtual grid for immutable upload and SDMF/MDMF create+overwrite with 1-2 unpermitted servers out of 3-5 (default schedule). Clock: datetime.now seam inside allmydata.grid_manager (current_datetime_with_zone itself is code under test), also under two other TZ values; twisted plugin scan cached.",
 }
